@@ -336,11 +336,15 @@ class X12Reader(X12Base):
         X12Base._parse_segment(self, seg_data)
         seg_id = seg_data.get_seg_id()
         if seg_id == 'IEA':
-            if self.loops[-1][0] != 'ISA':
+            if self.loops and self.loops[-1][0] != 'ISA':
                 # Unterminated GS loop
                 err_str = 'Unterminated Loop {}'.format(self.loops[-1][0])
                 self._isa_error('024', err_str)
                 del self.loops[-1]
+            if not self.loops:
+                err_str = 'IEA id={} has no matching ISA'.format(seg_data.get_value('IEA02'))
+                self._isa_error('001', err_str)
+                return
             if self.loops[-1][1] != seg_data.get_value('IEA02'):
                 err_str = 'IEA id={} does not match ISA id={}'.format(\
                     seg_data.get_value('IEA02'), self.loops[-1][1])
@@ -351,10 +355,14 @@ class X12Reader(X12Base):
                 self._isa_error('021', err_str)
             del self.loops[-1]
         elif seg_id == 'GE':
-            if self.loops[-1][0] != 'GS':
+            if self.loops and self.loops[-1][0] != 'GS':
                 err_str = 'Unterminated segment {}'.format(self.loops[-1][1])
                 self._gs_error('3', err_str)
                 del self.loops[-1]
+            if not self.loops:
+                err_str = 'GE id={} has no matching GS'.format(seg_data.get_value('GE02'))
+                self._gs_error('4', err_str)
+                return
             if self.loops[-1][1] != seg_data.get_value('GE02'):
                 err_str = 'GE id={} does not match GS id={}'.format(\
                     seg_data.get_value('GE02'), self.loops[-1][1])
@@ -368,6 +376,10 @@ class X12Reader(X12Base):
             del self.loops[-1]
         elif seg_id == 'SE':
             se_trn_control_num = seg_data.get_value('SE02')
+            if not self.loops:
+                err_str = 'SE id={} has no matching ST'.format(se_trn_control_num)
+                self._st_error('3', err_str)
+                return
             if self.loops[-1][0] != 'ST' or \
                     self.loops[-1][1] != se_trn_control_num:
                 err_str = 'SE id={} does not match ST id={}'.format(\
